@@ -283,7 +283,8 @@ FinishEval(s, v0) ==
 NextForm(s) ==
   IF s.evi > Len(s.prog.evals) THEN [s EXCEPT !.halted = TRUE] ELSE
   LET forms == s.prog.evals[s.evi] IN
-  LET s0 == IF s.fi = 0 THEN StartEval(s) ELSE s IN
+  \* (a load with nothing in it returns before the evaluation is begun: the step counter keeps its last reading)
+  LET s0 == IF s.fi = 0 THEN (IF Len(forms) = 0 THEN [s EXCEPT !.probes = <<>>, !.savedpkg = s.pkg] ELSE StartEval(s)) ELSE s IN
   IF s0.fi = Len(forms)
   THEN FinishEval(s0, IF s0.fi = 0 THEN VNil ELSE s0.last)
   ELSE IF s.prog.modes[s.evi] = "call"
